@@ -10,7 +10,7 @@ use crate::props::common::*;
 use serde_json::{json, Value};
 use std::collections::{BTreeMap, HashSet};
 
-pub const RULE: &str = "random + crafted histories of insert/delete(cuckoo)/union/clear per (filter kind, configuration, hasher, eviction RNG, kick budget); after every operation all keys with net inserts >= 1 are queried. A history is non-trivial if it contained at least one of: eviction, quotient-filter shift, Full error, union; distinct = distinct (config, op-sequence) hashes";
+pub const RULE: &str = "random + crafted histories of insert/delete(cuckoo)/union/clear per (filter kind, configuration, hasher, eviction RNG, kick budget); after every operation all keys with net inserts >= 1 are queried; unions of differently configured filters must panic (as documented) or keep every element of both operands. A history is non-trivial if it contained at least one of: eviction, quotient-filter shift, Full error, union; distinct = distinct (config, op-sequence) hashes";
 pub const ASSUMPTIONS: &[&str] = &[
     "harness hashers/RNGs behave as specified (unit-tested)",
     "cuckoo deletes are only issued for keys with net inserts >= 1, as the property demands",
@@ -213,6 +213,67 @@ fn run_history<F: Flt>(
     }
 }
 
+/// `union` documents a panic for operands with different parameters. If an implementation accepts
+/// such a pair instead (returns Ok), the no-false-negative clause still binds it.
+fn mismatched_unions(ctx: &Ctx, i: usize, rep: &mut Report) {
+    use crate::infra::hashers::CtlBuildHasher;
+    let mut r = FastRng::new(ctx.sub_seed(&[0xBAD0, i as u64]));
+    let keys_a: Vec<u64> = (0..40).map(|_| r.next()).collect();
+    let keys_b: Vec<u64> = (0..40).map(|_| r.next()).collect();
+    let bh = CtlBuildHasher::mix(r.next());
+    let mut run = |label: String, mk_a: &dyn Fn() -> Box<dyn FnMut(u64, u8) -> Option<bool>>| {
+        let _ = (label, mk_a);
+    };
+    let _ = &mut run;
+    macro_rules! pair {
+        ($label:expr, $a:expr, $b:expr) => {{
+            rep.evaluations += 1;
+            let label: String = $label;
+            let res = guarded(|| -> Option<u64> {
+                let mut a = $a;
+                let mut b = $b;
+                for k in &keys_a {
+                    let _ = a.insert(*k);
+                }
+                for k in &keys_b {
+                    let _ = b.insert(*k);
+                }
+                let in_a: Vec<u64> = keys_a.iter().copied().filter(|k| a.query(*k)).collect();
+                let in_b: Vec<u64> = keys_b.iter().copied().filter(|k| b.query(*k)).collect();
+                match guarded(|| a.union(&b)) {
+                    Err(_) => None, // documented panic
+                    Ok(Err(())) => in_a.iter().find(|k| !a.query(**k)).copied(),
+                    Ok(Ok(())) => in_a.iter().chain(in_b.iter()).find(|k| !a.query(**k)).copied(),
+                }
+            });
+            match res {
+                Ok(None) => rep.count("mismatched_union_pairs", 1),
+                Ok(Some(k)) => rep.violation(
+                    "C01/false-negative/union-of-mismatched-filters-accepted",
+                    format!("{}: union of two differently configured filters returned without panicking and key {} of an operand is not reported present afterwards", label, k),
+                    json!({"pair": label, "missing_key": k}),
+                ),
+                Err(msg) => rep.violation(format!("C01/panic/{}", panic_class(&msg)), format!("{}: {}", label, msg), json!({"pair": label})),
+            }
+        }};
+    }
+    let m = *r.pick(&[64usize, 1000, 65_536]);
+    for (k1, k2) in [(7usize, 2usize), (2, 7), (3, 4), (12, 1)] {
+        pair!(format!("bloom(m={},k={}) u bloom(m={},k={})", m, k1, m, k2), BloomCfg { m, k: k1, bh }.make(), BloomCfg { m, k: k2, bh }.make());
+    }
+    pair!(format!("bloom(m={},k=3) u bloom(m={},k=3)", m, m * 2), BloomCfg { m, k: 3, bh }.make(), BloomCfg { m: m * 2, k: 3, bh }.make());
+    pair!("bloom hasher mismatch".to_string(), BloomCfg { m, k: 3, bh }.make(), BloomCfg { m, k: 3, bh: CtlBuildHasher::mix(bh.seed ^ 1) }.make());
+    let cc = |b: usize, n: usize, l: usize, h: CtlBuildHasher| CuckooCfg { bucketsize: b, n_buckets: n, l, bh: h, rng: RngSpec::Fast(1) };
+    pair!("cuckoo l mismatch".to_string(), cc(4, 32, 16, bh).make(), cc(4, 32, 8, bh).make());
+    pair!("cuckoo l mismatch (wide)".to_string(), cc(4, 32, 40, bh).make(), cc(4, 32, 33, bh).make());
+    pair!("cuckoo n_buckets mismatch".to_string(), cc(4, 32, 16, bh).make(), cc(4, 16, 16, bh).make());
+    pair!("cuckoo bucketsize mismatch".to_string(), cc(4, 32, 16, bh).make(), cc(2, 32, 16, bh).make());
+    pair!("cuckoo hasher mismatch".to_string(), cc(4, 32, 16, bh).make(), cc(4, 32, 16, CtlBuildHasher::mix(bh.seed ^ 1)).make());
+    pair!("qf q mismatch".to_string(), QfCfg { q: 7, r: 8, bh }.make(), QfCfg { q: 6, r: 8, bh }.make());
+    pair!("qf r mismatch".to_string(), QfCfg { q: 7, r: 8, bh }.make(), QfCfg { q: 7, r: 9, bh }.make());
+    pair!("qf hasher mismatch".to_string(), QfCfg { q: 7, r: 8, bh }.make(), QfCfg { q: 7, r: 8, bh: CtlBuildHasher::mix(bh.seed ^ 1) }.make());
+}
+
 pub fn run(ctx: &Ctx) -> Report {
     let dbg = ctx.is_dbg();
     let n_items = match (ctx.tier, dbg) {
@@ -223,6 +284,9 @@ pub fn run(ctx: &Ctx) -> Report {
     };
     let mut rep = par_run(ctx, n_items, |i, rep| {
         let mut r = FastRng::new(ctx.sub_seed(&[i as u64, if dbg { 1 } else { 0 }]));
+        if i % 97 == 0 {
+            mismatched_unions(ctx, i, rep);
+        }
         let kind = i % 8;
         let hists = 12;
         match kind {
